@@ -78,3 +78,26 @@ Example c12_handoff_schedule :
   | None => False
   end.
 Proof. vm_compute. repeat split. Qed.
+
+(* 7. SCOPE of 1-6: in the transition system a write (P5) always completes. A write that fails WITHOUT ending the stream (channel.send
+      raises for a frame of 4 GiB or more, or when compression runs out of memory) takes the holder out of _send through the
+      `finally` - lock released, no re-test of the queue. The refutation: thread 1 appends its message and returns because the lock is
+      taken; thread 0's write fails; every sender has returned, the lock is free, and thread 1's message is still queued
+      (known finding F52; found by the harness's failed-write plans). *)
+Definition fail_write (i : nat) (s : st) : option st :=
+  match tpc (thrs s i), cur (thrs s i) with
+  | P5, Some _ => Some {| thrs := upd (thrs s) i {| tpc := Done; next := next (thrs s i); total := total (thrs s i); cur := None |};
+                          queue := queue s; lock := None; wire := wire s |}
+  | _, _ => None
+  end.
+Fixpoint run_steps (s : st) (l : list nat) : option st :=
+  match l with [] => Some s | i :: r => match step i s with Some s' => run_steps s' r | None => None end end.
+Theorem c12_quiescent_refuted_when_a_write_fails :
+  exists s1 s2, run_steps (init (fun i => if Nat.ltb i 2 then 1 else 0)) [0; 0; 0; 0; 0; 1; 1; 1] = Some s1
+    /\ fail_write 0 s1 = Some s2
+    /\ (forall i, tpc (thrs s2 i) = Done) /\ lock s2 = None /\ queue s2 = [(1, 0)] /\ wire s2 = [].
+Proof.
+  eexists. eexists. split; [vm_compute; reflexivity|]. split; [vm_compute; reflexivity|].
+  repeat split. intros [|[|i]]; reflexivity.
+Qed.
+Print Assumptions c12_quiescent_refuted_when_a_write_fails.
